@@ -5,9 +5,13 @@ import (
 	"sort"
 	"strings"
 	"testing"
+	"time"
+
+	"github.com/gauss-project/aurorafs/pkg/localstore"
 
 	"verif/harness/internal/fsim"
 	"verif/harness/internal/obs"
+	"verif/harness/internal/spec"
 )
 
 type opRec struct {
@@ -37,7 +41,7 @@ func histories(t *testing.T, shard int) {
 	run.Rule("histories of 40 ops on a mini node with capacity 8..20 chunks: local uploads (plain / pinned at upload), files cached from a source node (full download path or chunk-wise retrieval path), pin/unpin through the HTTP API, reads, and synchronous collection runs when the trigger level was reached; files are built from a pool of 6 shared 256 KiB blocks so uploads, pinned files and cached files overlap; dump before/after every collection run; distinct = (capacity class, #collections evicting, classes of files present at eviction)",
 		"a chunk counts as 'stored by local upload' when it belongs to a file uploaded through the local API and not deleted since",
 		"background collection worker is gated off; the monitor runs exactly the same collectGarbage() synchronously")
-	n := run.N(48, 600)
+	n := run.N(96, 800)
 	for i := shard; i < n; i += 4 {
 		c := run.Begin(fmt.Sprintf("hist/%d", i), nil)
 		if c == nil {
@@ -57,6 +61,9 @@ func histories(t *testing.T, shard int) {
 			blocks := make([]int, nb)
 			for k := range blocks {
 				blocks[k] = rng.Intn(6)
+			}
+			if nb >= 2 && rng.Intn(3) == 0 {
+				blocks[nb-1] = blocks[0] // the same data chunk twice in one file
 			}
 			last := []int{fsim.CS, 1000, 70000}[rng.Intn(3)]
 			f, err := w.NewFile(blocks, last)
@@ -202,7 +209,11 @@ func histories(t *testing.T, shard int) {
 			fi := rng.Intn(len(files))
 			f := files[fi]
 			var o opRec
-			switch x := rng.Intn(13); {
+			x := rng.Intn(13)
+			if s, _ := fsim.Dump(w.N); s.GCSize > s.Target && rng.Intn(2) == 0 {
+				x = 12 // collection is due: go to the collection branch (parked variant first)
+			}
+			switch {
 			case x < 2:
 				pin := rng.Intn(3) == 0
 				o = opRec{Op: "upload", File: fi, Arg: fmt.Sprint("pin=", pin)}
@@ -280,6 +291,102 @@ func histories(t *testing.T, shard int) {
 				}
 			default:
 				s, _ := fsim.Dump(w.N)
+				if s.GCSize > s.Target {
+					// a collection run parked between candidate selection and eviction while a
+					// cached file gets pinned: chunks pinned by then must survive the run and the
+					// pin counters as they are when the eviction starts must not change
+					var cand []int
+					// candidates for the pin: cached files themselves, and (twice as likely) other
+					// files that share a chunk with a cached file, so that only non-root chunks
+					// of the file being evicted get pinned
+					for gi, g := range files {
+						if st[gi].pinned {
+							continue
+						}
+						if _, ok := s.GC[g.Root.String()]; ok {
+							cand = append(cand, gi)
+							continue
+						}
+						for hi, h := range files {
+							if _, ok := s.GC[h.Root.String()]; !ok || hi == gi {
+								continue
+							}
+							for ch := range h.Chunks {
+								if g.Chunks[ch] {
+									cand = append(cand, gi, gi)
+									break
+								}
+							}
+						}
+					}
+					if len(cand) > 0 {
+						gi := cand[rng.Intn(len(cand))]
+						hist = append(hist, opRec{Op: "collect-parked-while-pinning", File: gi})
+						var mid *fsim.State
+						chunkOnly := rng.Intn(3) > 0
+						parked := parkedCollect(t, w, func() {
+							if chunkOnly {
+								// pin ONE data chunk of a cached file through POST /chunks with the pin
+								// header (an upload of a chunk the node already holds)
+								// the oldest cache entry is certainly among the run's candidates
+								var gcFiles []*fsim.File
+								if raw, err := w.N.Store.VerifDump(); err == nil && len(raw.GC) > 0 {
+									for _, g := range files {
+										if fmt.Sprintf("%x", raw.GC[0].Address) == g.Root.String() {
+											gcFiles = append(gcFiles, g)
+										}
+									}
+								}
+								if len(gcFiles) > 0 {
+									g := gcFiles[0]
+									// prefer a data chunk no other file of the world contains (a shared
+									// chunk is not a candidate for eviction anyway)
+									li := rng.Intn(len(g.Leaves))
+									for try := 0; try < len(g.Leaves); try++ {
+										cand := (li + try) % len(g.Leaves)
+										exclusive := true
+										for _, h := range files {
+											if h != g && h.Chunks[g.Leaves[cand]] {
+												exclusive = false
+											}
+										}
+										if exclusive {
+											li = cand
+											break
+										}
+									}
+									off := li * fsim.CS
+									end := off + fsim.CS
+									if end > len(g.Data) {
+										end = len(g.Data)
+									}
+									payload := append(spec.Span(uint64(end-off)), g.Data[off:end]...)
+									code := w.N.UploadChunk(payload, true)
+									hist[len(hist)-1].Arg = fmt.Sprintf("pin chunk %d of f%d via POST /chunks: %d", li, g.ID, code)
+								}
+							} else if code := w.N.PinHTTP(files[gi].Root); code == 200 || code == 201 {
+								st[gi].pinned = true
+							}
+							mid, _ = fsim.Dump(w.N)
+						})
+						after, _ := fsim.Dump(w.N)
+						hist[len(hist)-1].Note = fmt.Sprintf("parked=%v after{%s}", parked, w.Short(after))
+						if parked && mid != nil {
+							run.Stat("parked_collections_with_pin", 1)
+							for ch, cnt := range mid.Pins {
+								if cnt > 0 && mid.Present[ch] && !after.Present[ch] {
+									c.Viol("chunk-pinned-during-collection-evicted", fmt.Sprintf("chunk %s was pinned (count %d) while the collection run was between candidate selection and eviction, and the run deleted it", ch[:12], cnt), witness(nil))
+									break ops
+								}
+							}
+							if fmt.Sprint(sortedPins(mid.Pins)) != fmt.Sprint(sortedPins(after.Pins)) {
+								c.Viol("collection-changed-pin-counter-set-during-run", fmt.Sprintf("pin index when eviction started %v, after the run %v", shortPins(mid.Pins), shortPins(after.Pins)), witness(nil))
+								break ops
+							}
+						}
+						continue
+					}
+				}
 				if s.GCSize >= s.Cap || s.SumGC >= s.Cap || rng.Intn(4) == 0 {
 					if !collect() {
 						break ops
@@ -336,4 +443,42 @@ func min(a, b int) int {
 		return a
 	}
 	return b
+}
+
+// parkedCollect runs one collection run in a goroutine, parks it between candidate selection
+// and eviction (the existing testHookGCIteratorDone point), performs during() and resumes.
+func parkedCollect(t *testing.T, w *fsim.World, during func()) (parked bool) {
+	reached := make(chan struct{})
+	release := make(chan struct{})
+	first := true
+	localstore.VerifSetGCIteratorDone(func() {
+		if !first {
+			return
+		}
+		first = false
+		close(reached)
+		<-release
+	})
+	defer localstore.VerifSetGCIteratorDone(nil)
+	done := make(chan struct{})
+	go func() {
+		defer close(done)
+		_, _, _ = w.N.Store.VerifCollectGarbage()
+	}()
+	select {
+	case <-reached:
+		parked = true
+		during()
+		close(release)
+	case <-done:
+		return false
+	case <-time.After(120 * time.Second):
+		t.Fatal("collection run neither reached the parking point nor returned within 120 s (inconclusive)")
+	}
+	select {
+	case <-done:
+	case <-time.After(120 * time.Second):
+		t.Fatal("parked collection run did not finish within 120 s after release (inconclusive)")
+	}
+	return parked
 }
